@@ -388,6 +388,20 @@ func c15Trees(t core.Tier) []c15Tree {
 			}
 		}
 	}
+	// text literals whose bytes a printer might be tempted to escape
+	for _, lit := range []string{`^k\d$`, `a\\b`, "a\tb", `say "hi"`, "caf\xc3\xa9", "\x01\x7f", `\`, "`x`", "a\nb", "%s %d"} {
+		l := func() *ref.Expr { return ref.S(lit) }
+		for _, e := range []*ref.Expr{
+			ref.Bin("=", ref.Key(), l()), ref.Bin("~=", ref.Key(), l()), ref.Bin("=", ref.Call("upper", l()), ref.Value()), ref.Bin("^=", ref.Bin("+", ref.Key(), l()), l()),
+			ref.In(ref.Key(), l(), ref.S("a")), ref.Btw(ref.Key(), l(), l()), ref.Not(ref.Bin("!=", l(), ref.Value())),
+		} {
+			k := canonTree(e)
+			if !seen[k] {
+				seen[k] = true
+				out = append(out, c15Tree{e, 'B'})
+			}
+		}
+	}
 	c15TreesCache[string(t)] = out
 	return out
 }
